@@ -127,9 +127,9 @@ class Harness:
         finally:
             signal.alarm(0)
             if life:
-                lifecycle.begin_case("")
                 for k, v in lifecycle.take_counts().items():
                     ctx.count(k, v)
+                lifecycle.begin_case("")
         return ctx
 
     def summarize(self, case, ctx=None):
